@@ -58,10 +58,19 @@ def run(tier, rep):
     known = [r for r in res if r.get('ref_available') or 'crashed' in r]  # (a crashed exploration is reported as a violation by aggregate)
     if len(known) < 61 and not dxlib.SKIPPED:
         raise SystemExit('HARNESS-ERROR: the reference model accepts only %d background names (61 expected)' % len(known))
+    # the edge coverage (layer A) again under squeezed default streams: every unforced deviate of the generation stage mapped
+    # into a sub-interval of (0,1), so that the executions around each edge differ from the fair stream's in every later draw
+    squeezes = dxlib.SQUEEZES_QUICK if tier == 'quick' else dxlib.SQUEEZES
+    for sq in squeezes:
+        rs, ds = dxlib.run_dx('plain', cfg, 'c01s', 'A', 'ref', deadline=deadline, extra=['--squeeze', sq, '--horizon', '30000'])
+        for r in rs:
+            r['squeeze_pass'] = sq
+        res += rs
+    rep.coverage['squeezed_default_streams'] = list(squeezes)
     aggregate(rep, res, True, ('ref',), 'genbbsub',
               'state = draw-site context of the reference (Fortran line + call stack), transition = (site, alphabet value) edge; '
               'alphabet = tails, 0.5 and both sides of every decision threshold solved from the model\'s comparisons; layers %s, '
-              'every execution replayed on model and port through GENBBsub/genbbsub; distinct = distinct (site sequence, species list)' % layers)
+              'every execution replayed on model and port through GENBBsub/genbbsub; layer A repeated under squeezed default streams; distinct = distinct (site sequence, species list)' % layers)
     rep.coverage['reference_names'] = len(known)
     rep.assumptions += ['F77->C++ transpilation of the reference is faithful (tools/f2cxx.py; REAL evaluated in double)',
                         'CERNLIB stand-ins in ref/cernlib_shim.cc', 'decisions are affine in the deciding deviate',
